@@ -247,7 +247,9 @@ class BasicEmbeddingsIndex(EmbeddingsIndex):
         if self._current_batch_finished_event is None:
             self._current_batch_finished_event = asyncio.Event()
             self._current_batch_full_event = asyncio.Event()
-            self._current_batch_submitted.clear()
+            # A new event per batch (like the two above): an event that was waited for is
+            # bound to the event loop of that moment and cannot be used from another one
+            self._current_batch_submitted = asyncio.Event()
             asyncio.ensure_future(self._run_batch())
 
         # We check if we reached the max batch size
